@@ -1,10 +1,14 @@
-#!/bin/sh
-# re-validates every seeded change against the check(s) that should catch it
+#!/bin/bash
+# re-validates every seeded change against the check of its own property (4 at a time)
 cd /verif
-for d in seeded/C*; do
-  id=$(basename $d)
+one() {
+  d=$1; id=$(basename $d | cut -c1-3)
   targets=$id
-  [ "$id" = "C13" ] && targets="C04 C08"
-  echo "== $id -> $targets"
-  tools/seedcheck.sh $d $targets 2>&1 | grep -E "^C[0-9]+ rc|exit=|passed|failed|PATCH" | cut -c1-160
+  [ "$(basename $d)" = "C13" ] && targets="C04 C08"
+  echo "== $(basename $d) -> $targets $(tools/seedcheck.sh $d $targets 2>&1 | grep -E "^C[0-9]+ rc|exit=|passed|failed|PATCH" | cut -c1-160 | tr '\n' '|')"
+}
+for d in seeded/C*; do
+  one $d &
+  while [ $(jobs -r | wc -l) -ge ${JOBS:-4} ]; do sleep 1; done
 done
+wait
